@@ -1,4 +1,4 @@
-#!/venv/bin/python
+#!/usr/bin/env python3
 """Confirm seeded changes against the *current* /repo HEAD in scratch worktrees and keep the confirmed ones.
 
 For every /tmp/seed_out/<ID>/patch<n>.diff: make a scratch worktree of /repo HEAD under /tmp/cur, check that the
